@@ -108,7 +108,11 @@ func scenHold(e *Env, args []string, r *rand.Rand) {
 	m := argMap(args)
 	l, rh := uint16(atoi(m["l"], 3)), uint16(atoi(m["r"], 3))
 	window := time.Duration(atoi(m["ms"], 4500)) * time.Millisecond
-	p := e.addPeer(1, PeerOpts{LocalAS: localAS, RemoteAS: remoteAS, Hold: l, Passive: dir == "in", IdleHold: 30 * time.Second})
+	ihold := 30 * time.Second
+	if m["r1"] != "" {
+		ihold = 50 * time.Millisecond
+	}
+	p := e.addPeer(1, PeerOpts{LocalAS: localAS, RemoteAS: remoteAS, Hold: l, Passive: dir == "in", IdleHold: ihold})
 	if m["pat"] == "writes" {
 		var bodies [][]byte
 		for i := 0; i < 200; i++ {
@@ -121,6 +125,18 @@ func scenHold(e *Env, args []string, r *rand.Rand) {
 	st := "established"
 	if m["st"] != "" {
 		st = m["st"]
+	}
+	if m["r1"] != "" {
+		// r1=<hold>: an earlier session on the same peer (for dir=out: on the same FSM object) negotiated another
+		// hold time and was ended by the remote closing the connection; what follows is judged on the next session
+		c0 := p.bring(dir, "established", uint16(atoi(m["r1"], 9)), remoteID)
+		if c0 != nil {
+			time.Sleep(20 * time.Millisecond)
+			c0.fin()
+			c0.waitEnd(stepWait)
+			p.waitEv(0, stepWait, "cb.exit", "OnClose")
+		}
+		p.mark = e.tr.len()
 	}
 	c := p.bring(dir, st, rh, remoteID)
 	if c != nil {
@@ -186,23 +202,50 @@ func scenCollision(e *Env, args []string, r *rand.Rand) {
 		return
 	}
 	p.waitEv(0, stepWait, "log.t", "out", "*", "openSent")
-	in := p.remote.dial()
-	if in == nil || len(in.waitMsgs(1, stepWait)) < 1 {
-		e.close()
-		return
-	}
-	p.waitEv(0, stepWait, "log.t", "in", "*", "openSent")
 	rid := uint32(remoteID)
 	if m["rid"] != "" {
 		a := net.ParseIP(m["rid"]).To4()
 		rid = uint32(a[0])<<24 | uint32(a[1])<<16 | uint32(a[2])<<8 | uint32(a[3])
 	}
+	open := func(c *Conn) []byte { return wire.Open(ras, 90, rid, tag(c)) }
+	late := m["late"] == "1" && m["first"] == "out"
+	if late {
+		// the remote's connection arrives only after the outbound one has completed its OPEN exchange
+		out.send(open(out))
+		out.waitMsgs(2, stepWait)
+		p.waitEv(0, stepWait, "log.t", "out", "openSent", "openConfirm")
+	}
+	if m["prefail"] == "1" {
+		// an earlier inbound connection fails before it completes its OPEN exchange
+		in0 := p.remote.dial()
+		if in0 != nil && len(in0.waitMsgs(1, stepWait)) >= 1 {
+			p.waitEv(0, stepWait, "log.t", "in", "*", "openSent")
+			from := e.tr.len()
+			in0.fin()
+			in0.waitEnd(stepWait)
+			p.waitEv(from, stepWait, "log.t", "in", "openSent", "*")
+			time.Sleep(5 * time.Millisecond)
+		}
+		p.mark = e.tr.len()
+	}
+	if late || m["prefail"] == "1" {
+		// judged by the admission monitor too: nothing is in progress inbound and the outbound connection is not
+		// Established, so this connection must be served
+		e.tr.log(p.key, "probe", "known", p.addr.String(), "127.0.0.1")
+	}
+	in := p.remote.dial()
+	if in == nil || len(in.waitMsgs(1, stepWait)) < 1 {
+		e.close()
+		return
+	}
+	p.waitEv(p.mark, stepWait, "log.t", "in", "*", "openSent")
 	conns := map[string]*Conn{"out": out, "in": in}
 	first, second := conns[m["first"]], conns[other(m["first"])]
-	open := func(c *Conn) []byte { return wire.Open(ras, 90, rid, tag(c)) }
-	first.send(open(first))
-	first.waitMsgs(2, stepWait)
-	p.waitEv(0, stepWait, "log.t", m["first"], "openSent", "openConfirm")
+	if !late {
+		first.send(open(first))
+		first.waitMsgs(2, stepWait)
+		p.waitEv(0, stepWait, "log.t", m["first"], "openSent", "openConfirm")
+	}
 	if m["then"] == "established-first" {
 		// the first connection becomes Established before the second completes its OPEN exchange
 		first.send(wire.Keepalive())
@@ -456,9 +499,44 @@ func scenShutdown(e *Env, args []string, r *rand.Rand) {
 			p2.waitEv(0, stepWait, "cb.exit", "OnEstablished")
 		}
 		e.close()
-	default: // openSent, openConfirm, established
-		p := e.addPeer(1, PeerOpts{LocalAS: localAS, RemoteAS: remoteAS, Hold: 90, Passive: dir == "in"})
+	case "manypeers":
+		// five peers with connections in different states; every one of them is stopped by Close
+		var ps []*Peer
+		for k := 1; k <= 5; k++ {
+			ps = append(ps, e.addPeer(k, PeerOpts{LocalAS: localAS, RemoteAS: remoteAS, Hold: 90, Passive: k != 1}))
+		}
 		e.serve()
+		for k, p := range ps {
+			d := "in"
+			if k == 0 {
+				d = "out"
+			}
+			p.bring(d, []string{"established", "openConfirm", "established", "openSent", "established"}[k], 90, remoteID)
+		}
+		if api == "delete" {
+			ps[2].delete()
+		}
+		e.close()
+	default: // openSent, openConfirm, established
+		o := PeerOpts{LocalAS: localAS, RemoteAS: remoteAS, Hold: 90, Passive: dir == "in"}
+		if m["second"] != "" {
+			o.IdleHold = 50 * time.Millisecond
+		}
+		p := e.addPeer(1, o)
+		e.serve()
+		if m["second"] != "" {
+			// second=<state>: an earlier connection of the same peer (dir=out: of the same FSM object) got as far as
+			// <state> and was closed by the remote; the stop hits the connection after it
+			c0 := p.bring(dir, m["second"], 90, remoteID)
+			if c0 != nil {
+				from := e.tr.len()
+				c0.fin()
+				c0.waitEnd(stepWait)
+				p.waitEv(from, stepWait, "log.t", dir, m["second"], "*")
+				time.Sleep(2 * time.Millisecond)
+			}
+			p.mark = e.tr.len()
+		}
 		p.bring(dir, point, 90, remoteID)
 		if d := atoi(m["us"], 0); d > 0 {
 			time.Sleep(time.Duration(r.Intn(d)) * time.Microsecond)
@@ -980,6 +1058,10 @@ func init() {
 				out = append(out, fmt.Sprintf("hold:out:l=%d:r=%d:pat=silent:st=openConfirm:ms=%d", pr[0], pr[1], neg*1000+1500))
 			}
 		}
+		// the session under observation follows one that negotiated a different hold time (same peer; for
+		// dir=out the same FSM object)
+		out = append(out, "hold:out:l=30:r=3:r1=9:pat=ka:ms=3500", "hold:out:l=30:r=3:r1=9:pat=silent:ms=4500",
+			"hold:out:l=3:r=3:r1=0:pat=silent:ms=4500", "hold:out:l=30:r=0:r1=3:pat=ka:ms=3500", "hold:in:l=30:r=3:r1=9:pat=ka:ms=3500")
 		return out
 	}
 	scenarioLists["C07"] = func(tier string, r *rand.Rand) []string {
@@ -1005,6 +1087,13 @@ func init() {
 			for _, v := range []string{"ka", "fin", "fsmerr", "none"} {
 				out = append(out, fmt.Sprintf("collision-window:%s:lid=10.0.0.100:i=%d", v, rep), fmt.Sprintf("collision-window:%s:lid=10.0.0.100:i=%db", v, rep))
 			}
+			// arrival orders with history: the remote's connection arrives after the outbound one is in OpenConfirm;
+			// an earlier inbound connection failed before its OPEN exchange completed
+			for _, lid := range []string{"10.0.0.100", "10.0.1.44"} {
+				out = append(out, fmt.Sprintf("collision:lid=%s:first=out:late=1:i=%d", lid, rep),
+					fmt.Sprintf("collision:lid=%s:first=out:late=1:prefail=1:i=%d", lid, rep),
+					fmt.Sprintf("collision:lid=%s:first=in:prefail=1:i=%d", lid, rep))
+			}
 		}
 		return out
 	}
@@ -1015,7 +1104,7 @@ func init() {
 			n = 20
 		}
 		for _, api := range []string{"close", "delete"} {
-			for _, pt := range []string{"idle", "before-serve", "twopeers", "dial-window"} {
+			for _, pt := range []string{"idle", "before-serve", "twopeers", "dial-window", "manypeers", "manypeers:i=1"} {
 				out = append(out, fmt.Sprintf("shutdown:%s:%s", api, pt))
 			}
 			for _, dir := range []string{"out", "in"} {
@@ -1027,6 +1116,12 @@ func init() {
 			}
 			for rep := 0; rep < n; rep++ {
 				out = append(out, fmt.Sprintf("shutdown:%s:collision:oc=%d:i=%d", api, rep%2, rep))
+			}
+			// the stop hits a later connection of the same peer / FSM object
+			for _, dir := range []string{"out", "in"} {
+				for _, pt := range []string{"openSent", "openConfirm", "established"} {
+					out = append(out, fmt.Sprintf("shutdown:%s:%s:dir=%s:second=%s", api, pt, dir, map[string]string{"openSent": "openSent", "openConfirm": "established", "established": "openConfirm"}[pt]))
+				}
 			}
 			for _, dir := range []string{"out", "in"} {
 				for _, st := range []string{"openSent", "openConfirm"} {
@@ -1108,6 +1203,9 @@ func init() {
 		for i := 0; i < 6; i++ {
 			out = append(out, fmt.Sprintf("admission:specific-prequeued:i=%d", i))
 		}
+		// an active peer whose outbound connection is in OpenConfirm (not Established) still admits the remote's connection
+		out = append(out, "collision:lid=10.0.0.100:first=out:late=1:i=a", "collision:lid=10.0.1.44:first=out:late=1:i=a",
+			"collision:lid=10.0.0.100:first=out:late=1:prefail=1:i=a")
 		return out
 	}
 	// C01: the union of the families in which sessions come and go
@@ -1132,13 +1230,16 @@ func init() {
 		return out
 	}
 	scenarioLists["C14"] = func(tier string, r *rand.Rand) []string {
-		return []string{"open-caps:fresh", "open-caps:mutate", "open-caps:mutate:i=1"}
+		// + an OPEN sent after an earlier session negotiated a lower hold time (it must carry the configured one)
+		return []string{"open-caps:fresh", "open-caps:mutate", "open-caps:mutate:i=1", "hold:out:l=30:r=3:r1=9:pat=ka:ms=1200", "hold:in:l=30:r=3:r1=9:pat=ka:ms=1200"}
 	}
 	scenarioLists["C05"] = func(tier string, r *rand.Rand) []string {
 		var out []string
 		for _, p := range []string{"C08", "C09", "C02"} {
 			out = append(out, scenarioLists[p](tier, r)...)
 		}
+		// connections that match no peer / the wrong local address, then the API is used again (nothing may be left locked)
+		out = append(out, "admission:specific-local-wrong-dst", "admission:wild-local-wrong-dst", "admission:specific-unknown-src")
 		n := 8
 		if tier == "thorough" {
 			n = 150
